@@ -31,7 +31,8 @@ NASTY = [b"", b"\x00", b"\xff", b"\xc3", b"\xe2\x82", b"\xf0\x9f\x98", b"\xed\xa
          b"a = {b = 1,}", b"a = {b = 1\n}", b"a = [1,,2]", b"a = [,]", b"\"\" = 1", b"'' = 1", b"\"\".'' = 1", b". = 1", b"a..b = 1",
          b"a = 1 b = 2", b"[a]]", b"[[a]", b"[a.]", b"[.a]", b"[]", b"[[]]", b"a = \"\"\"\"\"\"\"\"\"", b"a = '''''''''", b"a = \"\"\"\\",
          b"a = \"\"\"\\ x\"\"\"", b"\x7f = 1", b"a\x00b = 1", b"a = \x00", b"#\x00", b"a = \"\x1f\"", b"a = '\x7f'", b"24:00:00", b"1979-05-27",
-         b"1979-05-27T07:32:00+24:00", b"12:34", b"1:2:3", b"\xe2\x80\xa8 = 1", b"a = \xe2\x80\xa8"]
+         b"1979-05-27T07:32:00+24:00", b"12:34", b"1:2:3", b"\xe2\x80\xa8 = 1", b"a = \xe2\x80\xa8",
+         b"a = \'\'\'" + b'"' * 300 + b"\'\'\'", b'a = "' + b"'" * 300 + b'"', b"a = '" + b'"' * 256 + b"'", b'"' + b"'" * 256 + b'" = 1']
 
 
 def gen_cases(rng, tier):
